@@ -20,22 +20,27 @@ META = {
     "level": "translation_validation",
     "files": ["toqito/channel_metrics/completely_bounded_trace_norm.py", "toqito/channel_metrics/diamond_distance.py",
               "toqito/channel_metrics/completely_bounded_spectral_norm.py", "toqito/channel_metrics/channel_fidelity.py",
+              "toqito/channel_metrics/fidelity_of_separability.py",
               "toqito/channels/partial_trace.py", "toqito/channel_ops/dual_channel.py", "toqito/matrix_props/trace_norm.py"],
     "functions": ["toqito.channel_metrics.completely_bounded_trace_norm", "toqito.channel_metrics.diamond_distance",
-                  "toqito.channel_metrics.completely_bounded_spectral_norm", "toqito.channel_metrics.channel_fidelity"],
+                  "toqito.channel_metrics.completely_bounded_spectral_norm", "toqito.channel_metrics.channel_fidelity",
+                  "toqito.channel_metrics.fidelity_of_separability"],
     "explanation": "E2: for each instance of a stated family of Choi matrices the program handed to the conic solver is captured and proved by z3 equal, for all "
                    "decision-variable values, to the definition's program: Watrous' SDP for the cb trace norm (Y0, Y1 >= 0, [[Y0,-J],[-J^dagger,Y1]] >= 0, objective "
                    "(||Tr_out Y0|| + ||Tr_out Y1||), halved on return; spectral norm = uninterpreted function of the proved partial traces); the channel-fidelity SDP "
                    "(max lambda, [[J1,Q^dagger],[Q,J2]] >= 0, Hermitian part of Tr_out Q >= lambda I in the Loewner order) for local dimension 2..5; diamond distance = "
                    "program of J1-J2; cb spectral norm = program of the dual map (oracle's own swap/conjugate). E1: branch structure of completely_bounded_trace_norm "
-                   "on a symbolic Hermitian Choi matrix (channel => 1; CP => operator norm of Phi*(I); otherwise SDP).",
+                   "on a symbolic Hermitian Choi matrix (channel => 1; CP => operator norm of Phi*(I); otherwise SDP). Channel fidelity of separability: "
+                   "for pure tripartite product states with unequal dimensions (B, A, R) the captured picos program admits the constant channel "
+                   "I_R (x) |a><a|^(x)k: every equality holds, each PSD-constrained operator at that point is an explicit Gram form, and the objective there "
+                   "gives the returned value 2*obj - 1 = 1 (T3 certificate in z3; k = 1, 2; also on a second call with the same dimension list).",
     "bounds": {"quick": "cb trace norm: 3 Hermiticity-preserving and 1 general qubit maps (dyadic); channel fidelity: local dim 2, 3 (two instance pairs each) and 5 (one pair); "
                         "branch structure: qubit maps (4x4 symbolic Hermitian Choi matrix)",
                "thorough": "adds qutrit cb-trace-norm instances and channel fidelity for local dim 4, 6"},
     "trusted_base": ["picos / cvxpy evaluate their own affine expressions correctly (extraction)", "the SDP characterisations of the cb trace norm (Watrous) and of the channel "
                      "fidelity (Katariya-Wilde) are the definitions", "conic solvers (replay only)", "LAPACK norms as uninterpreted kernels", "z3 5.1.0"],
     "outside_claim": ["every numeric relation between optima (<= 2, Choi-norm bounds, closed form for unitary pairs, unitary invariance, symmetry of the value)",
-                      "channel fidelity of separability (SDP hierarchy over tripartite extensions; not built)",
+                      "channel fidelity of separability: the upper half (objective <= 1 on the feasible set) and states that are not products",
                       "instance data is concrete: the claim is per instance, for all decision-variable values"],
     "assumptions": ["instance entries are dyadic so that extraction is exact"],
 }
@@ -68,10 +73,47 @@ def cb_instances(tier):
     fam.append(("transpose map", np.array([[1, 0, 0, 0], [0, 0, 1, 0], [0, 1, 0, 0], [0, 0, 0, 1.0]])))
     fam.append(("complex HP map", choi_of([np.array([[1, 0.5j], [0, 0.5]])]) - 0.5 * choi_of([np.array([[0, 1], [1j, 0]])])))
     fam.append(("general (non-Hermitian Choi) map", choi_of([np.array([[1, 0.5], [0, 1j]])], [np.array([[0.5, 0], [1, 1]])])))
+    # Hermitian and TRACELESS Choi matrix whose output partial trace does not vanish: a non-unital CP map minus its dual
+    JA = choi_of([np.array([[1, 0], [0, 0.5]]), np.array([[0, 0.5j], [0, 0]])])
+    fam.append(("non-unital CP map minus its dual (traceless, Tr_out J != 0)", JA - dual_of(JA, 2)))
     if tier == "thorough":
         S = np.roll(np.eye(3), 1, axis=0)
         fam.append(("qutrit id - shift", choi_of([np.eye(3)]) - choi_of([S])))
+        import os
+        rng = np.random.default_rng(2000 + int(os.environ.get("VERIF_SEED", "0") or 0))
+
+        def dy(d):
+            return (rng.integers(-2, 3, size=(d, d)) + 1j * rng.integers(-2, 3, size=(d, d))) / 2.0
+        for t in range(12):
+            if t % 3 == 0:      # difference of two CP maps (Hermiticity preserving, generically not CP)
+                J = choi_of([dy(2)]) - choi_of([dy(2), dy(2)])
+                nm = f"seeded difference of CP qubit maps #{t}"
+            elif t % 3 == 1:    # general map with different left and right operators (non-Hermitian Choi matrix)
+                J = choi_of([dy(2), dy(2)], [dy(2), dy(2)])
+                nm = f"seeded general qubit map #{t}"
+            else:               # real Choi matrix stored as float64
+                a, b = np.real(dy(2)), np.real(dy(2))
+                J = np.real(choi_of([a]) - choi_of([b])).astype(float)
+                nm = f"seeded real HP qubit map stored as float64 #{t}"
+            if np.any(J):
+                fam.append((nm, J))
     return fam
+
+
+def cbtn_value(J):
+    """independent value of Watrous' program for replay: lambda_max(Tr_out Y0) + lambda_max(Tr_out Y1) (twice the cb trace norm),
+    written with the harness' own partial trace; used when the captured program cannot be matched structurally"""
+    import cvxpy
+    J = np.asarray(J, dtype=complex)
+    n = J.shape[0]
+    d = int(round(np.sqrt(n)))
+    y0, y1 = cvxpy.Variable((n, n), hermitian=True), cvxpy.Variable((n, n), hermitian=True)
+
+    def tr_out(y):
+        return cvxpy.bmat([[sum(y[a * d + b, c * d + b] for b in range(d)) for c in range(d)] for a in range(d)])
+    prob = cvxpy.Problem(cvxpy.Minimize(cvxpy.lambda_max(tr_out(y0)) + cvxpy.lambda_max(tr_out(y1))),
+                         [cvxpy.bmat([[y0, -J], [-J.conj().T, y1]]) >> 0])
+    return float(prob.solve())
 
 
 def ref_cbtn(V, J):
@@ -112,6 +154,10 @@ def fid_instances(tier):
         n_pairs = 2 if d <= 3 else 1
         for s in range(n_pairs):
             fam.append((f"local dim {d}, pair {s}", choi_of(ks(d, 10 * d + s)), choi_of(ks(d, 10 * d + s + 5)), d))
+    if tier == "thorough":
+        for s in range(8):
+            d = 2 + s % 2
+            fam.append((f"seeded pair #{s}, local dim {d}", choi_of(ks(d, 400 + s)), choi_of(ks(d, 500 + s)), d))
     # mixed storage: one Choi matrix held in a REAL (float64) array, the other complex - both orders
     for d in [2, 3]:
         rng = np.random.default_rng(77 + d)
@@ -331,9 +377,10 @@ def obligations(tier):
     for name, J in cb_instances(tier):
         d = int(round(np.sqrt(J.shape[0])))
         obs.append(SdpTask("completely_bounded_trace_norm.program_is_watrous_sdp", {"map": name}, (lambda J=J: completely_bounded_trace_norm(J)),
-                           (lambda V, inst: ref_cbtn(V, inst)), instance=J, value_of=lambda r: 2 * float(r)))
+                           (lambda V, inst: ref_cbtn(V, inst)), instance=J, value_of=lambda r: 2 * float(r), replay_oracle=cbtn_value, tol=2e-3))
         obs.append(SdpTask("completely_bounded_spectral_norm.is_cb_trace_norm_of_dual", {"map": name}, (lambda J=J: completely_bounded_spectral_norm(J)),
-                           (lambda V, inst, d=d: ref_cbtn(V, dual_of(inst, d))), instance=J, value_of=lambda r: 2 * float(r)))
+                           (lambda V, inst, d=d: ref_cbtn(V, dual_of(inst, d))), instance=J, value_of=lambda r: 2 * float(r),
+                           replay_oracle=(lambda inst, d=d: cbtn_value(dual_of(inst, d))), tol=2e-3))
     fam = cb_instances(tier)
     for (n1, J1), (n2, J2) in [(fam[0], fam[1]), (fam[2], fam[0])]:
         obs.append(SdpTask("diamond_distance.is_cb_trace_norm_of_difference", {"maps": [n1, n2]}, (lambda J1=J1, J2=J2: diamond_distance(J1 + np.eye(4), J2)),
